@@ -8,9 +8,9 @@ Props/C12.lean turns each into an obligation (`decide`), so a change breaks a na
     queued, `_send(kind, seq, args)` leaves its datum at the BACK of the queue, for each of MSG_REQUEST,
     MSG_REPLY, MSG_EXCEPTION;
   * the model treats serialisation as a pure function of the message although `_send` serialises outside the
-    lock, where another sender (or a finalizer's nested send) can run in the middle of it: `brine.dump(x)`
-    returns the same bytes when a complete `brine.dump(y)` runs inside it (between two `_dump` calls) as when
-    it runs alone.
+    lock, where another sender (or a finalizer's nested send) can run in the middle of it: for several values
+    x, `brine.dump(x)` returns the same bytes when a complete `brine.dump(y)` runs inside it - at every call
+    brine makes during the dump, for two different y - as when it runs alone, and the inner dump is right too.
 
 Control flow of `_send` is modelled by hand and tied by the C12 correspondence (trace acceptance).
 """
@@ -59,28 +59,48 @@ def measure_enqueue_position():
 
 
 def measure_dump_reentry():
-    """dump(x) with a complete dump(y) executed inside it, at the entry of its third `_dump` call"""
+    """for several values x: dump(x) with a complete dump(y) executed inside it - at EVERY function call made by
+    brine during the dump (whatever the helpers are called), one injection point per run, for two different y -
+    must return the bytes dump(x) returns alone"""
+    import os
     from rpyc.core import brine
-    x = (1, 1001, (b"abc", 17, "text"))
-    y = (2, 2002, (b"", 5))
-    alone = brine.dump(x)
-    state = dict(calls=0)
+    brine_file = os.path.abspath(brine.__file__.replace(".pyc", ".py"))
+    xs = [(1, 1001, (b"abc", 17, "text")),
+          (2, 7, ((b"", 5), (None, True, 3.5), "x" * 300, 10 ** 30)),
+          (3, 2 ** 40, (frozenset([1]), slice(1, 2, 3), (), b"\x00" * 70)),
+          (1, 0, ())]
+    ys = [(2, 2002, (b"", 5)), (1, 9, ("another", (1, 2, (3, 4)), b"zzzz" * 20))]
+    points = 0
+    for x in xs:
+        alone = brine.dump(x)
+        for y in ys:
+            y_alone = brine.dump(y)
+            k = 0
+            while True:
+                state = dict(calls=0, injected=False, inner=None)
 
-    def tracer(frame, event, arg):
-        if event == "call" and frame.f_code is brine._dump.__code__:
-            state["calls"] += 1
-            if state["calls"] == 3:
-                brine.dump(y)          # tracing is off inside a trace function
-        return None
-    old = sys.gettrace()
-    sys.settrace(tracer)
-    try:
-        interrupted = brine.dump(x)
-    finally:
-        sys.settrace(old)
-    if state["calls"] < 3:
-        raise Inexpressible("brine.dump no longer serialises through brine._dump (%d calls seen)" % state["calls"])
-    return interrupted == alone and brine.dump(y) == brine.dump(y)
+                def tracer(frame, event, arg, state=state, k=k):
+                    if event == "call" and os.path.abspath(frame.f_code.co_filename) == brine_file:
+                        if state["calls"] == k and not state["injected"]:
+                            state["injected"] = True
+                            state["inner"] = brine.dump(y)          # tracing is off inside a trace function
+                        state["calls"] += 1
+                    return None
+                old = sys.gettrace()
+                sys.settrace(tracer)
+                try:
+                    interrupted = brine.dump(x)
+                finally:
+                    sys.settrace(old)
+                if not state["injected"]:
+                    break
+                points += 1
+                if interrupted != alone or state["inner"] != y_alone:
+                    return False
+                k += 1
+    if points < 20:
+        raise Inexpressible("brine.dump makes too few traceable calls to probe re-entry (%d points)" % points)
+    return True
 
 
 def gen_sendq():
@@ -91,8 +111,9 @@ def gen_sendq():
          "message kind (`MSG_REQUEST`, `MSG_REPLY`, `MSG_EXCEPTION`), is the new datum at the BACK of the queue? -/",
          "def enqueuedAtBack : List (Nat × Bool) := " +
          lean_list(["(%d, %s)" % (k, "true" if b else "false") for k, b in pos]), "",
-         "/-- measured on the live `brine.dump`: does `dump x` return the same bytes when a complete `dump y` runs in",
-         "the middle of it (another sender, or a finalizer's nested send, during serialisation) as when it runs alone? -/",
+         "/-- measured on the live `brine.dump`, for several values x and two y, at every call brine makes during the",
+         "dump: does `dump x` return the same bytes when a complete `dump y` runs in the middle of it (another sender,",
+         "or a finalizer's nested send, during serialisation) as when it runs alone, and is the inner result right? -/",
          "def dumpSurvivesReentry : Bool := " + ("true" if pure else "false"), "",
          "end Rpyc.Gen.Sendq", ""]
     return "\n".join(L)
